@@ -1,5 +1,6 @@
 import ITree.Lemmas.MapWF
 import ITree.Lemmas.KHistory
+import ITree.Lemmas.CheckEquiv
 /-!
 # C02 — the trees stay valid red-black search trees (logarithmic height)
 
@@ -64,6 +65,10 @@ theorem C02_key_step_total {c : Nat} {st : St V} {S : List (Ent V)} {last : Opti
   obtain ⟨hw, hr⟩ := h.inv
   obtain ⟨st', r, vals, tr, h1, h2, _⟩ := St.kstep_refines st S last op hw hr hc
   exact ⟨st', r, vals, tr, h1, h2⟩
+
+/-- the executable check the driver evaluates on every explored real pre-state (`wf=1`) is exactly the
+well-formedness hypothesis of the theorems -/
+theorem C02_wfCheck_iff (st : St V) : st.wfCheck = true ↔ WF st := wfCheck_iff st
 
 /-! non-vacuity: a concrete three-entry state is reachable and satisfies the hypotheses -/
 example : ∃ st : St Nat, Reach 8 st ∧ st.tree.size = 3 := by
